@@ -18,10 +18,11 @@ vars == <<k, entry, a, b, na, nb>>
 Child(len, ip, oop) == [len |-> len, scr |-> <<ip, oop, 0>>]
 
 Init ==
-    /\ k \in {"MixedRadix", "RadersAlgorithm", "BluesteinsAlgorithm", "Radix4", "RadixN"}
+    /\ k \in {"MixedRadix", "RadersAlgorithm", "BluesteinsAlgorithm", "Radix4", "RadixN", "AvxRadix"}
     /\ entry \in {IP, OOP, IM}
     /\ a \in Lens /\ b \in Lens /\ na \in Needs /\ nb \in Needs
-    /\ (k \notin {"MixedRadix"} => b = 2 /\ nb = 0)
+    /\ (k \notin {"MixedRadix", "AvxRadix"} => b = 2 /\ nb = 0)
+    /\ (k = "AvxRadix" => b = 2)
 Next == UNCHANGED vars
 Spec == Init /\ [][Next]_vars
 
@@ -40,6 +41,9 @@ Final ==
       [] k = "Radix4" ->
             LET n == a * 4  ch == <<Child(a, na, 0)>>  z == Scr(k, n, ch)[entry]  m0 == InitMem(n, z) IN
             [n |-> n, m |-> CASE entry = IP -> RadixInplace(m0, a, <<4>>) [] entry = OOP -> RadixOop(m0, a, <<4>>) [] OTHER -> RadixImmut(m0, a, <<4>>)]
+      [] k = "AvxRadix" ->
+            LET n == a * 3  ch == <<Child(a, na, nb)>>  z == Scr(k, n, ch)[entry]  m0 == InitMem(n, z) IN
+            [n |-> n, m |-> CASE entry = IP -> AvxRadixInplace(m0, 3, a) [] entry = OOP -> AvxRadixOop(m0, 3, a) [] OTHER -> AvxRadixImmut(m0, 3, a)]
       [] k = "RadixN" ->
             LET n == a * 6  ch == <<Child(a, na, 0)>>  z == Scr(k, n, ch)[entry]  m0 == InitMem(n, z) IN
             [n |-> n, m |-> CASE entry = IP -> RadixInplace(m0, a, <<3, 2>>) [] entry = OOP -> RadixOop(m0, a, <<3, 2>>) [] OTHER -> RadixImmut(m0, a, <<3, 2>>)]
